@@ -57,6 +57,7 @@ VARIABLES
     (* ---- bookkeeping of the properties (history) ---- *)
     expect,     \* declarative replay set, snapshot taken when the stream was opened
     replayed,   \* operations the replay handed to the application channel (this incarnation)
+    sent,       \* every operation handed to the application channel (this incarnation)
     base,       \* value the cursor was last reset to (StreamFrom::Start / Cursor); initially empty
     ackd,       \* operations whose ack returned Ok since the last reset
     lastRes,    \* result of the last completed application ack call
@@ -65,7 +66,7 @@ VARIABLES
 
 pvars == <<stored, assoc, cursor>>
 vvars == <<up, policy, pub, pubq, st, rq, ackLock, txHolder, chan, app>>
-hvars == <<expect, replayed, base, ackd, lastRes>>
+hvars == <<expect, replayed, sent, base, ackd, lastRes>>
 bvars == <<nPub, nImp, nAck, nForeign, nReset, crashes>>
 vars == <<pvars, vvars, hvars, bvars>>
 
@@ -119,7 +120,7 @@ Init ==
     /\ stored = {} /\ assoc = {} /\ cursor = EmptyCursor
     /\ up = FALSE /\ policy = "auto" /\ pub = IdlePub /\ pubq = <<>> /\ st = IdleSt /\ rq = <<>>
     /\ ackLock = "none" /\ txHolder = "none" /\ chan = <<>> /\ app = IdleApp
-    /\ expect = {} /\ replayed = {} /\ base = EmptyCursor /\ ackd = {} /\ lastRes = "none"
+    /\ expect = {} /\ replayed = {} /\ sent = {} /\ base = EmptyCursor /\ ackd = {} /\ lastRes = "none"
     /\ nPub = 0 /\ nImp = 0 /\ nAck = 0 /\ nForeign = 0 /\ nReset = 0 /\ crashes = 0
 
 ---------------------------------------------------------------------------
@@ -134,7 +135,7 @@ OpenWith(p, c) ==
     /\ LET q == ReplayQueue(c) IN
         /\ rq' = q
         /\ expect' = Unacked(c)
-        /\ replayed' = {}
+        /\ replayed' = {} /\ sent' = {}
         \* replay.rs:62-69: nothing to replay -> no ReplayStarted / ReplayEnded at all
         /\ chan' = IF q = <<>> THEN <<>> ELSE <<[k |-> "rs", op |-> NoOp]>>
         /\ st' = IF q = <<>>
@@ -268,13 +269,14 @@ AckCommit ==
             /\ rq' = rq
        ELSE /\ st' = NextSt(IF st.ctx = "replay" THEN Tail(rq) ELSE rq)             \* stream.rs:378 None
             /\ rq' = IF st.ctx = "replay" THEN Tail(rq) ELSE rq
-    /\ UNCHANGED <<stored, assoc, up, policy, pub, pubq, chan, app, expect, replayed, base, lastRes, bvars>>
+    /\ UNCHANGED <<stored, assoc, up, policy, pub, pubq, chan, app, expect, replayed, sent, base, lastRes, bvars>>
 
 \* app_tx.send(event) (stream.rs:298, replay.rs:95)               [*.before_send -> ...]
 Deliver ==
     /\ up /\ st.pc = "deliver"
     /\ chan' = Append(chan, [k |-> "op", op |-> st.op])
     /\ replayed' = IF st.ctx = "replay" THEN replayed \cup {st.op} ELSE replayed
+    /\ sent' = sent \cup {st.op}
     /\ rq' = IF st.ctx = "replay" THEN Tail(rq) ELSE rq
     /\ st' = NextSt(IF st.ctx = "replay" THEN Tail(rq) ELSE rq)
     /\ UNCHANGED <<pvars, up, policy, pub, pubq, ackLock, txHolder, app, expect, base, ackd, lastRes, bvars>>
@@ -306,7 +308,7 @@ AppAckBegin(o) ==
        ELSE /\ lastRes' = "pending"
             /\ ackLock' = "app"                                                   \* [-> acked.ack.after_read]
             /\ app' = [pc |-> "ackread", op |-> o, rd |-> Advance(cursor, o.a, o.seq)]
-    /\ UNCHANGED <<pvars, up, policy, pub, pubq, st, rq, txHolder, chan, expect, replayed, base, ackd,
+    /\ UNCHANGED <<pvars, up, policy, pub, pubq, st, rq, txHolder, chan, expect, replayed, sent, base, ackd,
                    nPub, nImp, nForeign, nReset, crashes>>
 
 AppAckWriteTx ==
@@ -322,7 +324,7 @@ AppAckCommit ==
     /\ lastRes' = "ok"
     /\ txHolder' = "none" /\ ackLock' = "none"
     /\ app' = IdleApp
-    /\ UNCHANGED <<stored, assoc, up, policy, pub, pubq, st, rq, chan, expect, replayed, base, bvars>>
+    /\ UNCHANGED <<stored, assoc, up, policy, pub, pubq, st, rq, chan, expect, replayed, sent, base, bvars>>
 
 ---------------------------------------------------------------------------
 (* Crash: node, handles, runtime, process gone.  Uncommitted transactions   *)
@@ -333,7 +335,7 @@ Crash ==
     /\ up' = FALSE
     /\ pub' = IdlePub /\ pubq' = <<>> /\ st' = IdleSt /\ rq' = <<>>
     /\ ackLock' = "none" /\ txHolder' = "none" /\ chan' = <<>> /\ app' = IdleApp
-    /\ expect' = {} /\ replayed' = {}
+    /\ expect' = {} /\ replayed' = {} /\ sent' = {}
     /\ lastRes' = "none"
     /\ crashes' = crashes + 1
     /\ UNCHANGED <<pvars, policy, base, ackd, nPub, nImp, nAck, nForeign, nReset>>
@@ -384,6 +386,19 @@ OnlyOwnTopicAcked == \A o \in ackd : o.tp = T
 ReplayExact ==
     /\ replayed \subseteq expect
     /\ (up /\ st.ctx = "live") => replayed = expect
+
+\* Beyond C15 (at-least-once while the node is up): a stored operation of the topic with a body that
+\* the cursor does not cover is never forgotten by a running node -- it was handed to the application
+\* in this incarnation, or is queued for replay, or is on its way through publisher / stream task.
+SeqSet(q) == {q[k] : k \in 1..Len(q)}
+NeverForgotten ==
+    up => \A o \in stored :
+            (o.tp = T /\ o.body /\ o.seq > cursor[o.a]) =>
+                \/ o \in sent
+                \/ o \in SeqSet(rq)
+                \/ o \in SeqSet(pubq)
+                \/ (pub.pc = "forged" /\ o = pub.op)
+                \/ (st.pc \in {"taken", "processed", "ackread", "ackintx", "deliver"} /\ o = st.op)
 
 \* the transcribed mechanism (ranges -> entries) agrees with the declarative set at open time
 ReplayQueueCoversExpect ==
